@@ -67,12 +67,17 @@ pub struct Policy {
     pub v1_len_padded: bool,
     /// XCDR1 PL_CDR: terminate with RTPS PID_SENTINEL (0x0001) instead of PID_LIST_END (0x3F02)
     pub v1_rtps_sentinel: bool,
+    /// XCDR1: the alignment origin set at the start of a parameter value (rule (24) PUSH(ORIGIN=0))
+    /// stays in force after the parameter instead of being restored. (Tolerated reading: the scope
+    /// of PUSH is described in prose only and implementations differ; it matters only when an
+    /// 8-byte aligned item follows a parameter inside a final/appendable struct.)
+    pub v1_origin_sticky: bool,
 }
 
 impl Policy {
     /// the encoding obtained by reading §7.4.3.5.3 literally
     pub const SPEC: Policy =
-        Policy { order_by_id: false, lc_by_size_any: false, share_nextint: true, v1_len_padded: false, v1_rtps_sentinel: false };
+        Policy { order_by_id: false, lc_by_size_any: false, share_nextint: true, v1_len_padded: false, v1_rtps_sentinel: false, v1_origin_sticky: false };
     pub fn all() -> Vec<Policy> {
         let mut v = vec![];
         for a in [false, true] {
@@ -80,7 +85,9 @@ impl Policy {
                 for c in [false, true] {
                     for d in [false, true] {
                         for e in [false, true] {
-                            v.push(Policy { order_by_id: a, lc_by_size_any: b, share_nextint: c, v1_len_padded: d, v1_rtps_sentinel: e });
+                            for f in [false, true] {
+                                v.push(Policy { order_by_id: a, lc_by_size_any: b, share_nextint: c, v1_len_padded: d, v1_rtps_sentinel: e, v1_origin_sticky: f });
+                            }
                         }
                     }
                 }
@@ -155,10 +162,6 @@ impl W {
     fn patch_u32(&mut self, at: usize, v: u32) {
         let b = if self.be { v.to_be_bytes() } else { v.to_le_bytes() };
         self.buf[at..at + 4].copy_from_slice(&b);
-    }
-    fn patch_u16(&mut self, at: usize, v: u16) {
-        let b = if self.be { v.to_be_bytes() } else { v.to_le_bytes() };
-        self.buf[at..at + 2].copy_from_slice(&b);
     }
 }
 
@@ -442,6 +445,7 @@ impl Encoder {
         }
         self.ext_pid_used |= sub.ext_pid_used;
         let mut size = sub.w.buf.len();
+        let sub_origin = sub.w.origin;
         let mut body = sub.w.buf;
         if self.pol.v1_len_padded {
             while size % 4 != 0 {
@@ -461,8 +465,12 @@ impl Encoder {
             self.w.u32(size as u32);
         }
         // PUSH(ORIGIN=0) scoped to the member value: the scratch buffer was produced with origin 0;
-        // appending it keeps the outer origin for whatever follows.
+        // appending it keeps the outer origin for whatever follows (unless the sticky reading is asked for).
+        let at = self.w.buf.len();
         self.w.buf.extend_from_slice(&body);
+        if self.pol.v1_origin_sticky {
+            self.w.origin = at + sub_origin;
+        }
         Ok(())
     }
 
@@ -584,7 +592,8 @@ pub struct DecodeError {
     pub what: String,
     /// clause of XTypes 1.3 the stream violates
     pub clause: &'static str,
-    /// structural tag of the construct at which decoding failed (for signatures)
+    /// structural tag of the construct at which decoding failed
+    #[allow(dead_code)]
     pub at: String,
 }
 
@@ -664,6 +673,8 @@ impl<'a> R<'a> {
 pub struct Decoder<'a> {
     r: R<'a>,
     ver: Ver,
+    /// XCDR1: alignment origin of a parameter value stays in force after the parameter
+    sticky_origin: bool,
     pub notes: DecodeNotes,
 }
 
@@ -671,6 +682,11 @@ pub struct Decoder<'a> {
 /// representation the type's extensibility demands, the padding bits must match, every DHEADER
 /// and member length must equal the size actually used, nothing may be left over.
 pub fn decode(ty: &Ty, bytes: &[u8], expect: Option<Enc>) -> DRes<(Val, DecodeNotes)> {
+    decode_opt(ty, bytes, expect, false)
+}
+
+/// `sticky_origin`: see `Policy::v1_origin_sticky`.
+pub fn decode_opt(ty: &Ty, bytes: &[u8], expect: Option<Enc>, sticky_origin: bool) -> DRes<(Val, DecodeNotes)> {
     if bytes.len() < 4 {
         return derr("shorter than the encapsulation header".into(), "7.6.3.1.2", "header");
     }
@@ -714,7 +730,7 @@ pub fn decode(ty: &Ty, bytes: &[u8], expect: Option<Enc>) -> DRes<(Val, DecodeNo
         return derr("padding count larger than the payload".into(), "7.6.3.1.2", "padding");
     }
     let end = bytes.len() - pad;
-    let (v, pos, notes) = decode_end(ty, bytes, ver, be)?;
+    let (v, pos, notes) = decode_end_opt(ty, bytes, ver, be, sticky_origin)?;
     if pos != end {
         return derr(
             format!(
@@ -731,9 +747,18 @@ pub fn decode(ty: &Ty, bytes: &[u8], expect: Option<Enc>) -> DRes<(Val, DecodeNo
 /// Decode the body only (header already validated or deliberately ignored); returns the offset at
 /// which the value ends. The readable window is the whole buffer.
 pub fn decode_end(ty: &Ty, bytes: &[u8], ver: Ver, be: bool) -> DRes<(Val, usize, DecodeNotes)> {
+    match decode_end_opt(ty, bytes, ver, be, false) {
+        Ok(x) => Ok(x),
+        Err(e) if ver == Ver::V1 => decode_end_opt(ty, bytes, ver, be, true).map_err(|_| e),
+        Err(e) => Err(e),
+    }
+}
+
+pub fn decode_end_opt(ty: &Ty, bytes: &[u8], ver: Ver, be: bool, sticky_origin: bool) -> DRes<(Val, usize, DecodeNotes)> {
     let mut d = Decoder {
         r: R { buf: bytes, pos: 4, origin: 4, be, maxalign: if ver == Ver::V1 { 8 } else { 4 }, end: bytes.len() },
         ver,
+        sticky_origin,
         notes: DecodeNotes::default(),
     };
     let v = d.value(ty)?;
@@ -1012,7 +1037,7 @@ impl<'a> Decoder<'a> {
                     }
                     Ver::V1 => {
                         let tag = format!("{}-struct.optional", s.ext.name());
-                        match self.pl_header(&tag)? {
+                        match self.pl_header_in(&tag, false)? {
                             None => return derr("list end where an optional member header was expected".into(), "7.4.3.5.3 rule (19)", &tag),
                             Some((id, _mu, len)) => {
                                 if id != m.id {
@@ -1044,15 +1069,21 @@ impl<'a> Decoder<'a> {
 
     /// XCDR1 parameter header; None at the end-of-list marker
     fn pl_header(&mut self, at: &str) -> DRes<Option<(u32, bool, usize)>> {
+        self.pl_header_in(at, true)
+    }
+
+    /// `in_list`: inside a mutable parameter list (where a terminator can occur); an optional member
+    /// of a final struct is a lone parameter: (id 1, length 0) there is an absent member with id 1
+    fn pl_header_in(&mut self, at: &str, in_list: bool) -> DRes<Option<(u32, bool, usize)>> {
         self.r.align(4)?;
         let pid = self.r.u16(at)?;
         let len = self.r.u16(at)? as usize;
         let mu = pid & FLAG_M != 0;
         let p = pid & 0x3FFF;
-        if p == PID_LIST_END {
+        if p == PID_LIST_END && in_list {
             return Ok(None);
         }
-        if p == PID_SENTINEL_RTPS && len == 0 && pid & 0xC000 == 0 {
+        if in_list && p == PID_SENTINEL_RTPS && len == 0 && pid & 0xC000 == 0 {
             // RTPS PID_SENTINEL: tolerated as end marker (noted)
             self.notes.rtps_sentinel = true;
             return Ok(None);
@@ -1086,7 +1117,9 @@ impl<'a> Decoder<'a> {
         self.r.end = start + len;
         let v = self.value(ty)?;
         let used = self.r.pos - start;
-        self.r.origin = so;
+        if !self.sticky_origin {
+            self.r.origin = so;
+        }
         self.r.end = se;
         if used != len {
             let padded = (used + 3) & !3;
